@@ -470,6 +470,7 @@ class Ctx(Report):
                     st["tie_mismatch"] += 1
                     if st["tie_mismatch"] <= 25:
                         self.broken.append(("correspondence", stream, "op: %s\nimpl: %s\nmodel: %s" % (line, io, mo)))
+        st["_impl"] = impl
         if len(self.cov["samples"]) < 12:
             for j in (0, len(lines) // 2, len(lines) - 1):
                 self.cov["samples"].append({"stream": stream, "op": lines[j][:600], "impl": (impl[j] if j < len(impl) else "")[:300]})
@@ -496,6 +497,8 @@ class Ctx(Report):
             else:
                 self.violation("broken", body + "# search over the implementation found no input on which the property itself fails\n", found_input=False)
         self.cov["broken"] = [(k, n) for k, n, _ in self.broken]
+        for st in self.cov["streams"].values():
+            st.pop("_impl", None)
         if self.cov["obligations"] == 0:
             self.cov["obligations"] = 1  # schema: proof level needs >= 1; none discharged
         return self.finish()
